@@ -27,9 +27,12 @@ CHECKS["C14"] = dict(
          "on generated histories with real json/pickle files (the real stop() is called, its last line handled at the "
          "moment of the disconnect; gateways with and without an event callback). Shutdown window "
          "(Properties/C14Stop.lean): clean_stop_window — for every placement of the pump's work relative to stop()'s "
-         "disconnect and final save, every change whose reply went out is in the file; reversed_order_loses — with the save "
-         "first it is not. The order of the two actions inside the real stop() of both flavours is recorded and compared "
-         "with the model's script.",
+         "disconnect and final save, after any earlier history of lines and periodic saves (need_save cleared before the "
+         "snapshot, one save at a time), every change whose reply went out is in the file; reversed_order_loses / "
+         "late_clear_loses — with the save first, or need_save cleared after the write, it is not. The order of the two "
+         "actions inside the real stop() of both flavours is recorded and compared with the model's script; real id "
+         "requests are handled before / while a periodic save writes / at the disconnect / before the final save / while "
+         "it writes / after stop, also while the asyncio gateway is re-dialling.",
     note="Trusted: Lean kernel; Model/Gateway.lean as a model of __init__.py/handler.py/sensor.py/ota.py (validated by the "
          "correspondence, not proved); persistence abstracted to 'file = persisted projection of last successful save' "
          "(formats: C11, atomicity: C12); tables regenerated from /repo.",
